@@ -207,6 +207,10 @@ def run_unit(unit):
             yield []
             for a in ALPHABET:
                 yield [a]
+            # very large blocks (no allocation happens in the assignment): per-rank byte totals beyond 2^31 and 2^32
+            G = 2 ** 30
+            for seqn in ([G] * 6, [G, 3 * G, 2 * G, G, G + 4, 2 * G], [3 * G] * 5 + [64], [G + 60] * 7):
+                yield list(seqn)
         else:
             for L in range(1, unit["L"] + 1):
                 yield from (list(s) for s in itertools.product(ALPHABET, repeat=L))
